@@ -7,6 +7,7 @@
 #include <cstdarg>
 #include <cstdio>
 #include <cstdlib>
+#include <cstring>
 #include <map>
 #include <memory>
 #include <mutex>
@@ -245,6 +246,7 @@ void hand_off(std::unique_lock<std::mutex>& lk, int me, bool me_finished)
 }
 }  // namespace
 
+static void flush_pending_store();
 uint64_t rnd() { return next_rnd(); }
 
 int self() { return t_self; }
@@ -252,6 +254,9 @@ bool tracing() { return S.recording; }
 
 int sched(const Enabled& en)
 {
+    if (S.recording) {
+        flush_pending_store();
+    }
     if (!S.running || t_self == 0) {
         return EN;  // main thread / outside a run: execute immediately
     }
@@ -294,11 +299,94 @@ bool chance(int num, int den, const char* /*what*/)
     return decide(2, v) == 1;
 }
 
+// ---- plain-access tap -------------------------------------------------------------------------
+struct TapRange {
+    uintptr_t lo, hi;
+};
+static TapRange g_ranges[64];
+static int g_nranges = 0;
+static bool g_tap_on = false;
+static thread_local int t_in_tap = 0;
+// a store hook runs BEFORE the store: remember it and print the stored value lazily, right before
+// the same thread's next event (by then the store instruction has executed)
+static thread_local void* t_pend_addr = nullptr;
+static thread_local unsigned t_pend_size = 0;
+
+void tap_add(const void* p, size_t n)
+{
+    if (g_nranges < 64) {
+        g_ranges[g_nranges++] = TapRange{reinterpret_cast<uintptr_t>(p), reinterpret_cast<uintptr_t>(p) + n};
+    }
+    g_tap_on = true;
+}
+void tap_remove(const void* p)
+{
+    auto lo = reinterpret_cast<uintptr_t>(p);
+    for (int i = 0; i < g_nranges; ++i) {
+        if (g_ranges[i].lo == lo) {
+            g_ranges[i] = g_ranges[--g_nranges];
+            break;
+        }
+    }
+    g_tap_on = g_nranges > 0;
+}
+void tap_clear()
+{
+    g_nranges = 0;
+    g_tap_on = false;
+}
+
+static void flush_pending_store()
+{
+    if (t_pend_addr == nullptr) {
+        return;
+    }
+    void* a = t_pend_addr;
+    unsigned size = t_pend_size;
+    t_pend_addr = nullptr;
+    std::string line = "pst " + name_of(a) + " " + std::to_string(size);
+    if (size <= 8) {
+        uint64_t v = 0;
+        memcpy(&v, a, size);
+        line += " " + std::to_string(static_cast<long long>(v));
+    }
+    S.res.trace.push_back(std::to_string(t_self) + " " + line);
+}
+
+void tap_access(void* a, unsigned size, bool write)
+{
+    if (!g_tap_on || t_in_tap != 0 || !S.recording) {
+        return;
+    }
+    auto x = reinterpret_cast<uintptr_t>(a);
+    for (int i = 0; i < g_nranges; ++i) {
+        if (x >= g_ranges[i].lo && x < g_ranges[i].hi) {
+            ++t_in_tap;
+            flush_pending_store();
+            if (write) {
+                t_pend_addr = a;
+                t_pend_size = size;
+            } else {
+                std::string line = "pld " + name_of(a) + " " + std::to_string(size);
+                if (size <= 8) {
+                    uint64_t v = 0;
+                    memcpy(&v, a, size);
+                    line += " " + std::to_string(static_cast<long long>(v));
+                }
+                S.res.trace.push_back(std::to_string(t_self) + " " + line);
+            }
+            --t_in_tap;
+            return;
+        }
+    }
+}
+
 void emit(const std::string& line)
 {
     if (!S.recording) {
         return;
     }
+    flush_pending_store();
     S.res.trace.push_back(std::to_string(t_self) + " " + line);
 }
 
@@ -444,6 +532,7 @@ void run_threads(const std::vector<std::function<void()>>& bodies)
                     t->go = false;
                 }
                 (*body)();
+                flush_pending_store();
                 std::unique_lock<std::mutex> l3(S.G);
                 t->finished = true;
                 hand_off(l3, tid, true);
